@@ -167,8 +167,9 @@ def dominated_by_locked_ensure(m: SharedModel, fi: FuncInfo, stmt: ast.stmt, idx
         for sub in ast.walk(st):
             if isinstance(sub, ast.Name) and isinstance(sub.ctx, ast.Store) and sub.id in names:
                 return False
-        if isinstance(st, ast.With) and st in m.locked_regions.get(fi.where, []):
-            for sub in ast.walk(st):
+        origin = {getattr(r, "_origin", r): r for r in m.locked_regions.get(fi.where, [])}
+        if st in origin:
+            for sub in ast.walk(origin[st]):
                 if isinstance(sub, ast.Call) and any(unparse(a) == idx for a in sub.args):
                     cn = call_name(sub)
                     if cn and len(cn) == 2:
@@ -206,6 +207,9 @@ def grows_cache(m: SharedModel, fi: FuncInfo, seen: Optional[Set[str]] = None) -
 
 def key_preserving_copy(m: SharedModel, fi: FuncInfo, target: ast.Subscript, value: ast.AST) -> bool:
     """``{k: <v> for k in self.cache[i]}`` (or .keys()/.items() first component), no filter."""
+    if isinstance(value, ast.Call) and unparse(value.func) == "dict.fromkeys" and 1 <= len(value.args) <= 2 and unparse(value.args[0]) == unparse(target) \
+            and (len(value.args) == 1 or (isinstance(value.args[1], ast.Constant))):
+        return True  # same keys in the same order, values reset
     if not isinstance(value, ast.DictComp) or len(value.generators) != 1:
         return False
     g = value.generators[0]
